@@ -14,7 +14,7 @@ RULE = ("Hypothesis-generated bridge programs in the C profile (primitives, enum
         "Non-trivial: a call with a non-zero argument whose program has a by-value struct with padding or nesting, an option or two-payload result, and a slice/string. "
         "Distinct = distinct (program, method, call vector).")
 ASSUME = [
-    "x86-64 SysV only; gcc 12 with AddressSanitizer and UBSan (leak detection off: borrowed return values are deliberately leaked by the harness bodies)",
+    "x86-64 SysV only; gcc 12 and clang 14 at -O0 and -O2 (chosen per program) with AddressSanitizer and UBSan (leak detection off: borrowed return values are deliberately leaked by the harness bodies)",
     "callbacks: argument types are primitives, enums and structs, return types unit or primitive (what the generator draws); custom traits are exercised for well-formedness only (C09)",
     "opaque objects are created per call through Diplomat-exposed `dvnew(id)` / read through `dvid()` support methods added to every opaque type",
 ]
@@ -154,6 +154,16 @@ def evaluate(art, work, prog, plan, **kw):
     return fails, res
 
 
+TOOLCHAINS = [("gcc", "-O0"), ("gcc", "-O0"), ("gcc", "-O2"), ("clang", "-O2"), ("clang", "-O0")]
+
+
+def toolchain_for(prog):
+    """compiler and optimisation level for the C driver: a fixed function of the program text (both compilers implement the same psABI;
+    -O2 changes how aggregates are materialised)"""
+    import zlib
+    return TOOLCHAINS[zlib.crc32(ir.dumps(prog).encode()) % len(TOOLCHAINS)]
+
+
 def worker(widx, seed, params):
     art = build.ensure_repo_artifacts()
     work = build.workdir("c01-w%d" % widx)
@@ -164,7 +174,9 @@ def worker(widx, seed, params):
         if acc.full():
             return
         prog, plan = case
-        fails, res = evaluate(art, work, prog, plan)
+        cc, opt = toolchain_for(prog)
+        fails, res = evaluate(art, work, prog, plan, cc=cc, opt=opt)
+        acc.labels["cc:%s%s" % (cc, opt)] += 1
         pnt = program_nontrivial(prog)
         if res["status"] != "ran" and not fails:
             acc.labels["not-accepted:" + res["status"]] += 1
@@ -201,7 +213,7 @@ def worker(widx, seed, params):
                 for i, x in enumerate(plan2):
                     x["mid"] = i
                 try:
-                    f2, _ = evaluate(art, work, p2, plan2)
+                    f2, _ = evaluate(art, work, p2, plan2, cc=cc, opt=opt)
                 except Exception:
                     return False
                 return any(s2 == sig for s2, _ in f2)
@@ -215,9 +227,9 @@ def worker(widx, seed, params):
             plan2 = [dict(x) for x in plan if (x["type"], x["method"]) in keep]
             for i, x in enumerate(plan2):
                 x["mid"] = i
-            f2, r2 = evaluate(art, work, small, plan2)
+            f2, r2 = evaluate(art, work, small, plan2, cc=cc, opt=opt)
             m2 = next((m for s2, m in f2 if s2 == sig), msg)
-            acc.violation("%s\n--- lib.rs (bridge part) ---\n%s" % (m2, ir.render_program(small)[:3000]), {"program": small, "plan": plan2}, signature=sig2)
+            acc.violation("[%s %s] %s\n--- lib.rs (bridge part) ---\n%s" % (cc, opt, m2, ir.render_program(small)[:3000]), {"program": small, "plan": plan2, "cc": cc, "opt": opt}, signature=sig2)
 
     pbt.explore(cases(ncalls=params.get("ncalls", 3)), body, params["n"], seed)
     build.rm_workdir(work)
@@ -240,7 +252,7 @@ def replay(ctx):
     art = build.ensure_repo_artifacts()
     c = json.load(open(ctx.replay))["case"]
     work = build.workdir("c01-replay")
-    fails, res = evaluate(art, work, c["program"], c["plan"])
+    fails, res = evaluate(art, work, c["program"], c["plan"], cc=c.get("cc", "gcc"), opt=c.get("opt", "-O0"))
     build.rm_workdir(work)
     for s_, m in fails:
         print(s_, m[:2000])
